@@ -53,10 +53,11 @@ type Config struct {
 	Stop      bool              `json:"stop,omitempty"`     // a thread calls Scheduler.Signal(SIGTERM) at an explored instant
 	Agent     bool              `json:"agent,omitempty"`    // drive the run through a real agent.Agent (setup + scheduler + the /stop path a.signal)
 	CleanupMs int               `json:"maxCleanUpMs,omitempty"`
-	SigTerm   bool              `json:"sigterm,omitempty"`  // with Agent+Stop: deliver an OS signal (a.Signal(SIGTERM)) instead of the /stop request
-	Observe   bool              `json:"observe,omitempty"`  // C08(a): call Agent.Status() at every decision and check it against the trace
-	Recorded  []string          `json:"recorded,omitempty"` // retry of a recorded run: recorded status text per step (C10)
-	OutBytes  int               `json:"outBytes,omitempty"` // bytes every attempt prints to stdout (0 = silent)
+	SigTerm   bool              `json:"sigterm,omitempty"`            // with Agent+Stop: deliver an OS signal (a.Signal(SIGTERM)) instead of the /stop request
+	Observe   bool              `json:"observe,omitempty"`            // C08(a): call Agent.Status() at every decision and check it against the trace
+	Recorded  []string          `json:"recorded,omitempty"`           // retry of a recorded run: recorded status text per step (C10)
+	RecRetry  []int             `json:"recordedRetryCount,omitempty"` // with Recorded: the retry count the record holds per step
+	OutBytes  int               `json:"outBytes,omitempty"`           // bytes every attempt prints to stdout (0 = silent)
 	Bound     int               `json:"bound"`
 }
 
@@ -145,6 +146,9 @@ func (c *Config) String() string {
 	}
 	if c.Recorded != nil {
 		fmt.Fprintf(&sb, "retry-of[%s] ", strings.Join(c.Recorded, ","))
+		if c.RecRetry != nil {
+			fmt.Fprintf(&sb, "recorded-retry-counts%v ", c.RecRetry)
+		}
 	}
 	if c.Stop {
 		sb.WriteString("stop ")
@@ -397,7 +401,7 @@ func (r *runner) once(cfg *Config, prefix []int, trace func(string)) (*Exec, *re
 			return
 		}
 		if cfg.Recorded != nil {
-			g, err = retryGraph(steps, cfg.Recorded)
+			g, err = retryGraph(steps, cfg.Recorded, cfg.RecRetry)
 		} else {
 			g, err = scheduler.NewExecutionGraph(venv.Quiet, steps...)
 		}
